@@ -26,6 +26,10 @@ sys.path.insert(0, REPO)
 os.environ.setdefault("PROSEMIRROR_PY_VERIF", "1")
 
 
+INTERNAL_ERRORS = (IndexError, KeyError, AttributeError, TypeError, AssertionError, RecursionError, UnboundLocalError,
+                   ZeroDivisionError, StopIteration, NameError)
+
+
 class Timeout(Exception):
     pass
 
@@ -380,9 +384,14 @@ def finding_matches(f, replay):
     if pred is None:
         return False
     try:
-        return bool(pred(f, replay))
+        if not pred(f, replay):
+            return False
     except Exception:  # noqa: BLE001
         return False
+    # ... and the tree under check behaves on this input exactly as the frozen copy of the library the finding was
+    # recorded against (harness/reference.py): the finding covers what that code does, nothing newer
+    from . import reference
+    return reference.same_as_reference(f.get("property"), replay)
 
 
 def write_replay(prop, obj):
@@ -432,8 +441,26 @@ def main(prop, run):
     ctx = Ctx(prop, tier, seed)
     try:
         status = run(ctx)
-    except Exception:  # noqa: BLE001  machinery failure: not a violation
-        traceback.print_exc()
+    except Exception as e:  # noqa: BLE001
+        tb = traceback.extract_tb(e.__traceback__)
+        inner = tb[-1].filename if tb else ""
+        if inner.startswith(os.path.abspath(REPO) + os.sep) and isinstance(e, INTERNAL_ERRORS):
+            # the library itself died (innermost frame in /repo) while the harness was using its public API on inputs
+            # it generated — building, walking or encoding a document.  The correspondence between model and
+            # implementation cannot be established on this run: reported as a broken correspondence, with the
+            # traceback as the replay (no property-level witness was reached).
+            traceback.print_exc()
+            ctx.mismatch("harness-use-of-public-api", {"exception": type(e).__name__, "message": str(e)[:300],
+                                                       "traceback": traceback.format_exc()[-3000:]},
+                         "the library call returns", "the library raised inside its own code")
+            try:
+                status = ctx.finish(rule="the run stopped early: the library raised inside its own code while the harness was "
+                                         "constructing or inspecting generated inputs")
+            except Exception:  # noqa: BLE001
+                traceback.print_exc()
+                sys.exit(2)
+            sys.exit(status)
+        traceback.print_exc()   # machinery failure: not a violation
         print(f"[{prop}] internal error of the checking machinery", file=sys.stderr)
         sys.exit(2)
     sys.exit(status)
